@@ -285,6 +285,31 @@ def run(chk):
             chk.broken.append({"kind": "extract", "name": "Extract_C12", "detail": str(e)[:500]})
     run_handover(chk, exe_sim, mexe)
     run_expat_second_context(chk, exe_sim)
+    run_helpers(chk)
+
+
+def run_helpers(chk):
+    """Every public helper that returns an allocated result (base64, SHA-1 text, JID parts, UUID), on empty, short, boundary and
+    malformed arguments, under the tracking allocator; the result is given back with xmpp_free().  Implementation only:
+    a block that does not come from the context's allocator, a leak or a double free is a violation of C12."""
+    exe = c12stanza.build_impl_driver()
+    rng = chk.rng
+    args = ["-", "00".replace("00", "41"), H("QQ=="), H("QUJD"), H("QUI="), H("Q"), H("!!!!"), H("a@b/c"), H("@b"), H("a@"), H("/r"), H("b"),
+            H("a@b/c/d@e"), H("x" * 1023), H("x" * 1024), H("x" * 3000)]
+    args += [rng.randbytes(rng.randrange(1, 80)).replace(b"\0", b"a").hex() for _ in range(20 if chk.tier == "quick" else 400)]
+    lines = []
+    for k in range(11):
+        for a in args:
+            lines.append("helper %d %s" % (k, a))
+    for _ in range(30 if chk.tier == "quick" else 600):
+        lines.append(";".join("helper %d %s" % (rng.randrange(11), rng.choice(args)) for _j in range(rng.randrange(2, 12))))
+    outs = vlib.run_parallel(exe, lines)
+    for line, out in zip(lines, outs):
+        chk.evaluations += 1
+        chk.count("helpers")
+        chk.nontrivial.add(line)
+        if out.startswith("CRASH") or "ALLOCERR" in out or not out.endswith("END live=0 blocks=0"):
+            chk.fail("PROG " + line, "allocating helper: %s" % out[-200:], stream="helpers")
 
 
 def replay(path):
